@@ -147,6 +147,12 @@ impl Variables {
         self.get_by_name(&temp)
     }
 
+    /// The variables with their names, in insertion order.
+    #[cfg(feature = "verif")]
+    pub fn verif_entries(&self) -> impl Iterator<Item = (&Name, &Variant)> {
+        self.map.entries().map(|(k, v)| (k, &v.value))
+    }
+
     pub fn get_by_name(&self, name: &Name) -> Option<&Variant> {
         self.map.get(name).map(|r| &r.value)
     }
